@@ -13,7 +13,7 @@ SPEC = dict(
           "scenario drawn from (seed, idx, thread): one of 16 kinds (vector<int>, vector<string> + formats, map with "
           "list and pair separators, requiresArg, excludes, all_of/any_of/one_of, checks lower/upper/range/values/"
           "min-/maxLength, usage into string streams with hfUsageCont, --list-arg-vars + verbose + summary, "
-          "tuple/array, bitset, set + format, hfEnvVarArgs with a different program file name argv[0] = tool<k> per thread and variables TOOL0..7 set before the threads start, addArgumentFile with the same or neighbouring argument files - two of them with a nested file - written before the threads start, the end-of-value-list argument registered under a different key per thread behind a multi-value list; in a fifth of the cases up to four threads print a usage at the same time, every case starts without the library-internal Groups singleton) with consecutive list separators from , ; : + | / # so that the threads "
+          "tuple/array, bitset, set + format, hfEnvVarArgs with a different program file name argv[0] = tool<k> per thread and variables TOOL0..7 set before the threads start, addArgumentFile with the same or neighbouring argument files - two of them with a nested file - written before the threads start, the end-of-value-list argument registered under a different key per thread behind a multi-value list; in a third of the cases the first four threads run the same scenario kind with different parameters, in a fifth of the cases up to four threads print a usage at the same time, every case starts without the library-internal Groups singleton) with consecutive list separators from , ; : + | / # so that the threads "
           "of a case differ in the separator / constraint list / value list the library has to split; each thread "
           "repeats construct Handler -> addArgument... -> evalArguments -> dump `iters` times on destination "
           "variables on its own stack. Oracle: the dump (outcome incl. exception type and text, all destination "
